@@ -418,6 +418,9 @@ pub fn scenarios() -> Vec<(&'static str, Op)> {
             let _ = tiny_std::unix::passwd::getpw_r::getpwuid_r(0, &mut buf);
             let mut small = [0u8; 24];
             let _ = tiny_std::unix::passwd::getpw_r::getpwuid_r(65_534, &mut small);
+            // an absent uid with a buffer of a line or two: the whole file is read, refill by refill
+            let mut mid = [0u8; 100];
+            let _ = tiny_std::unix::passwd::getpw_r::getpwuid_r(3_999_999_999, &mut mid);
             Held::none()
         }),
         ("openpty", |_e| {
